@@ -591,3 +591,12 @@ func init() {
 		}
 	}
 }
+
+func init() {
+	debugHooks["callarg-baseline"] = func(p *ir.Program) {
+		c := &Ctx{P: p, R: report.New("DBG", "quick")}
+		b, _ := json.MarshalIndent(c.callArgSigs(callPkgs), "", " ")
+		fmt.Println("BASELINE-BEGIN")
+		fmt.Println(string(b))
+	}
+}
